@@ -624,7 +624,6 @@ theorem first_match_decision_is_sticky_wan_tcp (m : KMaps) (w : World) (s : Skb)
   obtain ⟨h0, hd⟩ := rtOf_first_match m i dom true rules fb ubm rfl
     (wan_pktOK s l2 p true _ _ hb hlin hp (wan_tcp_mac_ok l2 p hsrc)) h
   have htr := (wan_new_tcp_becomes_tracked (rtOf m) w s l2 p hi hp ht hs ha hcp h0 hc).1
-  simp only at htr
   rw [hd] at htr
   have hl4 : p.tuples.five.l4 = IPPROTO_TCP := by rw [parsePacket_l4 hp, ht]
   exact sticky_decision p.tuples.five d (Or.inl hl4) (shortLived_tcp _ hl4) evs _ henv (htr hnp) hkeep
